@@ -205,7 +205,7 @@ func readLog(file []byte, withDialect bool, mode int) (entries []*tlog.Entry, fi
 
 func c20Body() func(h []dsim.Rec) {
 	withDialect := dsim.Choose(2) == 1
-	n := 1 + dsim.Choose(8)
+	n := 1 + dsim.Choose(depth(8, 20))
 	var entries []tlEntry
 	for i := 0; i < n; i++ {
 		entries = append(entries, genEntry(withDialect))
